@@ -7,45 +7,76 @@ From V.proofs Require Import BaseP RelEditP RelEditStP RelEditHistP RelEditTreeP
 From V.proofs Require Import RelGrammarAllParseP RelLiveAllP.
 Set Default Timeout 60.
 
-Lemma arels_left_last alts : forall r, arels_left r alts true = [].
-Proof. induction alts as [|[w r'] alts' IH]; intros r; [reflexivity|]. apply IH. Qed.
-Lemma entry_afield_children lead r alts :
-  children (atree_of (entry_afield lead r alts)) = elems lead ++ [Node ENTRY (arels_elems r alts true)].
+Lemma elems_app a b : elems (a ++ b) = elems a ++ elems b.
+Proof. apply map_app. Qed.
+Definition more_elems (more : list (list rtoken * aitem)) : list rtree :=
+  match more with [] => [] | (w, i') :: more' => Tok COMMA [44%N] :: elems w ++ aitems_elems i' more' end.
+Lemma aitems_elems_eq i more : aitems_elems i more = aitem_elems i (is_nil more) ++ more_elems more.
+Proof. destruct more as [|[w i'] more']; reflexivity. Qed.
+Lemma more_elems_emp post : more_elems (map emp post) = elems (flat_map comma_w post).
 Proof.
-  unfold atree_of, entry_afield. cbn [children af_lead af_first af_rest aitems_elems aitem_elems is_nil].
-  rewrite arels_left_last. cbn [elems map app]. now rewrite ?app_nil_r.
+  induction post as [|w post' IH]; [reflexivity|]. cbn [map emp more_elems flat_map comma_w]. fold (emp w).
+  rewrite aitems_elems_eq, IH. cbn [aitem_elems app]. change (elems (((COMMA, [44%N]) :: w) ++ flat_map comma_w post'))
+    with (Tok COMMA [44%N] :: elems (w ++ flat_map comma_w post')). now rewrite elems_app.
+Qed.
+Lemma is_nil_map {A B} (f : A -> B) l : is_nil (map f l) = is_nil l.
+Proof. now destruct l. Qed.
+Lemma aitems_place e post : forall pre w,
+  aitems_elems AEmpty (place w pre e post) = elems (flat_map comma_w (w :: pre)) ++ aitems_elems e post.
+Proof.
+  induction pre as [|w' pre' IH]; intros w; cbn [place aitems_elems aitem_elems app is_nil]; [|rewrite IH];
+    cbn [flat_map comma_w]; unfold elems; rewrite ?map_app; cbn [map app tk fst snd]; rewrite <- ?app_assoc; reflexivity.
+Qed.
+Lemma entry_afield_children lead pre r alts post :
+  children (atree_of (entry_afield lead pre r alts post)) =
+  elems (pre_toks lead pre) ++ Node ENTRY (arels_elems r alts (is_nil post)) :: elems (arels_left r alts (is_nil post) ++ flat_map comma_w post).
+Proof.
+  assert (E : aitems_elems (AEntry r alts) (map emp post) =
+              Node ENTRY (arels_elems r alts (is_nil post)) :: elems (arels_left r alts (is_nil post) ++ flat_map comma_w post)).
+  { rewrite aitems_elems_eq, more_elems_emp, is_nil_map. cbn [aitem_elems app]. now rewrite elems_app. }
+  unfold atree_of, entry_afield, pre_toks. destruct pre as [|w pre']; cbn [children af_lead af_first af_rest].
+  - cbn [flat_map]. now rewrite app_nil_r, E.
+  - rewrite aitems_place, E, ?elems_app, <- ?app_assoc. reflexivity.
 Qed.
 Lemma elems_not_entry ts : Forall (fun x => is_entry x = false) (elems ts).
 Proof. unfold elems. induction ts as [|t r IH]; constructor; [reflexivity|exact IH]. Qed.
 Lemma elems_not_relation ts : Forall (fun x => is_relation x = false) (elems ts).
 Proof. unfold elems. induction ts as [|t r IH]; constructor; [reflexivity|exact IH]. Qed.
-Lemma entry_afield_positions lead r alts :
-  nth_index is_entry 0 (children (atree_of (entry_afield lead r alts))) = Some (length (elems lead)) /\
-  nth_index is_entry 1 (children (atree_of (entry_afield lead r alts))) = None.
+Lemma nth_index_all_false {A} (p : A -> bool) n l : Forall (fun x => p x = false) l -> nth_index p n l = None.
+Proof. intros H. rewrite <- (app_nil_r l). now rewrite nth_index_skip_false by exact H. Qed.
+Lemma entry_at_len lead pre : length (elems (pre_toks lead pre)) = entry_at lead pre.
+Proof. unfold entry_at, elems. apply map_length. Qed.
+Lemma entry_afield_positions lead pre r alts post :
+  nth_index is_entry 0 (children (atree_of (entry_afield lead pre r alts post))) = Some (entry_at lead pre) /\
+  nth_index is_entry 1 (children (atree_of (entry_afield lead pre r alts post))) = None /\
+  nth_error (children (atree_of (entry_afield lead pre r alts post))) (entry_at lead pre) = Some (Node ENTRY (arels_elems r alts (is_nil post))).
 Proof.
-  rewrite entry_afield_children. rewrite !nth_index_skip_false by apply elems_not_entry.
-  cbn [nth_index]. change (is_entry (Node ENTRY (arels_elems r alts true))) with true. cbn [option_map]. split; [now rewrite Nat.add_0_r|reflexivity].
+  rewrite entry_afield_children, <- entry_at_len. rewrite !nth_index_skip_false by apply elems_not_entry.
+  cbn [nth_index]. change (is_entry (Node ENTRY (arels_elems r alts (is_nil post)))) with true. cbn iota.
+  rewrite (nth_index_all_false is_entry 0) by apply elems_not_entry. cbn [option_map].
+  split; [now rewrite Nat.add_0_r|]. split; [reflexivity|]. now rewrite nth_error_app_len.
 Qed.
 Lemma from_str_arender g : awf false g = true -> relations_from_str (arender g) = Ok (atree_of g).
 Proof. intros H. unfold relations_from_str. now rewrite (parse_arender false g H). Qed.
 
 (* ONewEntry 1 (ESParse text): register 3 then points at the entry inside the parsed tree *)
-Lemma parse_entry_runs lead r alts ts tid ri T a b c d : awf false (entry_afield lead r alts) = true ->
+Lemma parse_entry_runs x r alts ts tid ri T a b c d : awf false (ptext_field x r alts) = true ->
   nth_error ts tid = Some (mk_slot true ri T) ->
   exists txt,
-    runs (run_op fixed (ONewEntry 1 (ESParse (entry_text lead r alts)))) (st5 ts (mk_hnd tid []) a b c d) (4%N, txt)
-         (st5 (ts ++ [mk_slot true 0 (atree_of (entry_afield lead r alts))]) (mk_hnd tid []) a b
-              (Some (mk_hnd (length ts) ([] ++ [length (elems lead)]))) d) /\
-    get_path (atree_of (entry_afield lead r alts)) ([] ++ [length (elems lead)]) = Some (Node ENTRY (arels_elems r alts true)) /\
+    runs (run_op fixed (ONewEntry 1 (ESParse (ptext_text x r alts)))) (st5 ts (mk_hnd tid []) a b c d) (4%N, txt)
+         (st5 (ts ++ [mk_slot true 0 (atree_of (ptext_field x r alts))]) (mk_hnd tid []) a b
+              (Some (mk_hnd (length ts) ([] ++ [entry_at (p_lead x) (p_pre x)]))) d) /\
+    get_path (atree_of (ptext_field x r alts)) ([] ++ [entry_at (p_lead x) (p_pre x)]) = Some (Node ENTRY (arels_elems r alts (p_last x))) /\
     length ts <> tid.
 Proof.
-  intros Hw HT. pose proof (nth_error_Some_lt _ _ _ HT) as Hlt.
-  destruct (entry_afield_positions lead r alts) as [P0 P1].
-  assert (HGe : get_path (atree_of (entry_afield lead r alts)) ([] ++ [length (elems lead)]) = Some (Node ENTRY (arels_elems r alts true))).
-  { cbn [app get_path]. rewrite entry_afield_children, nth_error_app_len. reflexivity. }
+  intros Hw HT. pose proof (nth_error_Some_lt _ _ _ HT) as Hlt. unfold ptext_text, ptext_field, p_last in *.
+  destruct (entry_afield_positions (p_lead x) (p_pre x) r alts (p_post x)) as (P0 & P1 & PE).
+  set (g := entry_afield (p_lead x) (p_pre x) r alts (p_post x)) in *.
+  assert (HGe : get_path (atree_of g) ([] ++ [entry_at (p_lead x) (p_pre x)]) = Some (Node ENTRY (arels_elems r alts (is_nil (p_post x))))).
+  { cbn [app get_path]. rewrite PE. reflexivity. }
   eexists. split; [|split; [exact HGe|lia]].
   cbn [run_op]. unfold st5. eapply runs_try_build.
-  - cbn [build_entry]. unfold entry_parse, entry_text. rbind.
+  - cbn [build_entry]. unfold entry_parse. rbind.
     { unfold lift, runs. rewrite (from_str_arender _ Hw). reflexivity. }
     rewrite P0, P1. rbind; [apply runs_alloc|]. apply runs_set_reg.
   - cbn [ereg Nat.mul Nat.add set_reg_l child_h h_tid h_path]. unfold reg_text, node_of_reg.
@@ -53,29 +84,27 @@ Proof.
     rdone.
 Qed.
 (* ONewRel 1 (RSParse text): register 4 then points at the relation inside the parsed tree *)
-Lemma parse_rel_runs lead r ts tid ri T a b c d : awf false (entry_afield lead r []) = true ->
+Lemma parse_rel_runs x r ts tid ri T a b c d : awf false (ptext_field x r []) = true ->
   nth_error ts tid = Some (mk_slot true ri T) ->
   exists txt,
-    runs (run_op fixed (ONewRel 1 (RSParse (entry_text lead r [])))) (st5 ts (mk_hnd tid []) a b c d) (4%N, txt)
-         (st5 (ts ++ [mk_slot true 0 (atree_of (entry_afield lead r []))]) (mk_hnd tid []) a b c
-              (Some (mk_hnd (length ts) ([length (elems lead)] ++ [0])))) /\
-    get_path (atree_of (entry_afield lead r [])) ([length (elems lead)] ++ [0]) = Some (arel_tree r true) /\
+    runs (run_op fixed (ONewRel 1 (RSParse (ptext_text x r [])))) (st5 ts (mk_hnd tid []) a b c d) (4%N, txt)
+         (st5 (ts ++ [mk_slot true 0 (atree_of (ptext_field x r []))]) (mk_hnd tid []) a b c
+              (Some (mk_hnd (length ts) ([entry_at (p_lead x) (p_pre x)] ++ [0])))) /\
+    get_path (atree_of (ptext_field x r [])) ([entry_at (p_lead x) (p_pre x)] ++ [0]) = Some (arel_tree r (p_last x)) /\
     length ts <> tid.
 Proof.
-  intros Hw HT. pose proof (nth_error_Some_lt _ _ _ HT) as Hlt.
-  destruct (entry_afield_positions lead r []) as [P0 P1].
-  assert (HGe : nth_error (children (atree_of (entry_afield lead r []))) (length (elems lead)) = Some (Node ENTRY (arels_elems r [] true))).
-  { rewrite entry_afield_children, nth_error_app_len. reflexivity. }
-  assert (HGr : get_path (atree_of (entry_afield lead r [])) ([length (elems lead)] ++ [0]) = Some (arel_tree r true)).
+  intros Hw HT. pose proof (nth_error_Some_lt _ _ _ HT) as Hlt. unfold ptext_text, ptext_field, p_last in *.
+  destruct (entry_afield_positions (p_lead x) (p_pre x) r [] (p_post x)) as (P0 & P1 & HGe).
+  set (g := entry_afield (p_lead x) (p_pre x) r [] (p_post x)) in *. set (last := is_nil (p_post x)) in *.
+  assert (HGr : get_path (atree_of g) ([entry_at (p_lead x) (p_pre x)] ++ [0]) = Some (arel_tree r last)).
   { cbn [app get_path]. rewrite HGe. reflexivity. }
-  assert (R0 : nth_index is_relation 0 (arels_elems r [] true) = Some 0) by reflexivity.
-  assert (R1 : nth_index is_relation 1 (arels_elems r [] true) = None).
-  { cbn [arels_elems nth_index]. change (is_relation (arel_tree r true)) with true. cbn iota.
-    rewrite <- (app_nil_r (elems (arel_left r true))).
-    rewrite nth_index_skip_false by apply elems_not_relation. reflexivity. }
+  assert (R0 : nth_index is_relation 0 (arels_elems r [] last) = Some 0) by reflexivity.
+  assert (R1 : nth_index is_relation 1 (arels_elems r [] last) = None).
+  { cbn [arels_elems nth_index]. change (is_relation (arel_tree r last)) with true. cbn iota.
+    rewrite nth_index_all_false; [reflexivity|]. destruct last; [apply elems_not_relation|constructor]. }
   eexists. split; [|split; [exact HGr|lia]].
   cbn [run_op]. unfold st5. eapply runs_try_build.
-  - cbn [build_relation]. unfold relation_parse, entry_text. rbind.
+  - cbn [build_relation]. unfold relation_parse. rbind.
     { unfold lift, runs. rewrite (from_str_arender _ Hw). reflexivity. }
     rewrite P0, P1, HGe. cbn [children]. rewrite R0, R1. rbind; [apply runs_alloc|]. apply runs_set_reg.
   - change (rreg 1) with 4. cbn [set_reg_l child_h h_tid h_path app]. unfold reg_text, node_of_reg.
@@ -93,8 +122,8 @@ Definition preplace_ready (o : pop) (T : rtree) : Prop :=
 
 Definition popen_ok (o : pop) : bool :=
   match o with
-  | PPush lead r alts | PInsert _ lead r alts | PReplace _ lead r alts => awf false (entry_afield lead r alts)
-  | PEPush _ lead r | PEReplace _ _ lead r => awf false (entry_afield lead r [])
+  | PPush x r alts | PInsert _ x r alts | PReplace _ x r alts => awf false (ptext_field x r alts)
+  | PEPush _ x r | PEReplace _ _ x r => awf false (ptext_field x r [])
   end.
 Theorem pop_step_tree o T T' st :
   popen_ok o = true -> is_node T = true -> preplace_ready o T -> holds st T -> tt_op (ptop o) T = Ok T' ->
@@ -104,16 +133,16 @@ Proof.
   destruct o; cbn [popen_ok ptop tt_op pcompile preplace_ready] in *.
   - (* push *)
     injection Ht as <-. destruct T as [kT sT|kT csT]; [discriminate|].
-    destruct (parse_entry_runs lead r alts ts tid ri _ a b c d Hw HT) as (txt & R1 & HG & Ne).
-    destruct (push_runs (ts ++ [mk_slot true 0 (atree_of (entry_afield lead r alts))]) tid ri kT csT a b d (length ts) ([] ++ [length (elems lead)]) _ _
+    destruct (parse_entry_runs x r alts ts tid ri _ a b c d Hw HT) as (txt & R1 & HG & Ne).
+    destruct (push_runs (ts ++ [mk_slot true 0 (atree_of (ptext_field x r alts))]) tid ri kT csT a b d (length ts) ([] ++ [entry_at (p_lead x) (p_pre x)]) _ _
                 (nth_error_app_l _ _ _ _ HT) (nth_error_app_at _ _) HG) as (ts2 & a2 & b2 & d2 & R2 & T2).
     eexists. split.
     + eapply run_ops_cons; [exact R1|]. eapply run_ops_cons; [exact R2|reflexivity].
     + eapply holds_st5. exact T2.
   - (* insert *)
     injection Ht as <-. destruct T as [kT sT|kT csT]; [discriminate|].
-    destruct (parse_entry_runs lead r alts ts tid ri _ a b c d Hw HT) as (txt & R1 & HG & Ne).
-    destruct (insert_runs i (ts ++ [mk_slot true 0 (atree_of (entry_afield lead r alts))]) tid ri kT csT a b d (length ts) ([] ++ [length (elems lead)]) _ _
+    destruct (parse_entry_runs x r alts ts tid ri _ a b c d Hw HT) as (txt & R1 & HG & Ne).
+    destruct (insert_runs i (ts ++ [mk_slot true 0 (atree_of (ptext_field x r alts))]) tid ri kT csT a b d (length ts) ([] ++ [entry_at (p_lead x) (p_pre x)]) _ _
                 (nth_error_app_l _ _ _ _ HT) (nth_error_app_at _ _) HG) as (ts2 & a2 & b2 & d2 & R2 & T2).
     eexists. split.
     + eapply run_ops_cons; [exact R1|]. eapply run_ops_cons; [exact R2|reflexivity].
@@ -121,9 +150,9 @@ Proof.
   - (* replace *)
     destruct (entry_pos T i) as [ci|] eqn:Ep; [|discriminate]. injection Ht as <-.
     destruct (entry_pos_split _ _ _ Ep) as (k & pre & E & post & -> & <- & PE).
-    destruct (parse_entry_runs lead r alts ts tid ri _ a b c d Hw HT) as (txt & R1 & HG & Ne).
-    destruct (replace_runs_sub k pre E post _ (ts ++ [mk_slot true 0 (atree_of (entry_afield lead r alts))]) tid ri a b d
-                (length ts) 0 _ [] (length (elems lead)) i (nth_error_app_l _ _ _ _ HT) Ep (nth_error_app_at _ _) HG ltac:(congruence))
+    destruct (parse_entry_runs x r alts ts tid ri _ a b c d Hw HT) as (txt & R1 & HG & Ne).
+    destruct (replace_runs_sub k pre E post _ (ts ++ [mk_slot true 0 (atree_of (ptext_field x r alts))]) tid ri a b d
+                (length ts) 0 _ [] (entry_at (p_lead x) (p_pre x)) i (nth_error_app_l _ _ _ _ HT) Ep (nth_error_app_at _ _) HG ltac:(congruence))
       as (ts2 & a2 & b2 & d2 & R2 & T2).
     eexists. split.
     + eapply run_ops_cons; [exact R1|]. eapply run_ops_cons; [exact R2|reflexivity].
@@ -131,13 +160,13 @@ Proof.
   - (* Entry::push *)
     destruct (entry_pos T i) as [ci|] eqn:Ep; [|discriminate]. injection Ht as <-.
     destruct (entry_pos_split _ _ _ Ep) as (k & pre & E & post & -> & <- & PE).
-    destruct (parse_rel_runs lead r ts tid ri _ a b c d Hw HT) as (txt & R1 & HG & Ne).
-    set (ts1 := ts ++ [mk_slot true 0 (atree_of (entry_afield lead r []))]) in *.
+    destruct (parse_rel_runs x r ts tid ri _ a b c d Hw HT) as (txt & R1 & HG & Ne).
+    set (ts1 := ts ++ [mk_slot true 0 (atree_of (ptext_field x r []))]) in *.
     pose proof (get_entry_runs_gen _ i (length pre) ts1 tid ri a b c
-                  (Some (mk_hnd (length ts) ([length (elems lead)] ++ [0]))) (nth_error_app_l _ _ _ _ HT) Ep) as R2.
+                  (Some (mk_hnd (length ts) ([entry_at (p_lead x) (p_pre x)] ++ [0]))) (nth_error_app_l _ _ _ _ HT) Ep) as R2.
     destruct (is_entry_node _ PE) as (ecs & ->).
-    destruct (epush_runs_gen k pre ENTRY ecs post (arel_tree r true) ts1 tid ri b c (length ts) ([length (elems lead)] ++ [0]) _
-                (nth_error_app_l _ _ _ _ HT) (nth_error_app_at _ _) HG) as (ts3 & a3 & b3 & c3 & x & R3 & T3).
+    destruct (epush_runs_gen k pre ENTRY ecs post (arel_tree r (p_last x)) ts1 tid ri b c (length ts) ([entry_at (p_lead x) (p_pre x)] ++ [0]) _
+                (nth_error_app_l _ _ _ _ HT) (nth_error_app_at _ _) HG) as (ts3 & a3 & b3 & c3 & x0 & R3 & T3).
     eexists. split.
     + eapply run_ops_cons; [exact R1|]. eapply run_ops_cons; [exact R2|]. eapply run_ops_cons; [exact R3|reflexivity].
     + eapply holds_st5. rewrite T3. f_equal. f_equal. cbn [upd_path]. now rewrite upd_nth_app_r.
@@ -147,18 +176,18 @@ Proof.
     destruct (entry_pos_split _ _ _ P1) as (k & epre & E' & epost & -> & <- & PE).
     unfold child_at in P2. cbn [children] in P2. rewrite nth_error_app_len in P2. injection P2 as <-.
     destruct (is_entry_node _ PE) as (ecs & ->). cbn [children] in *.
-    destruct (nth_index_split _ _ _ _ P3) as (pre & x & post & -> & <- & Px).
+    destruct (nth_index_split _ _ _ _ P3) as (pre & x0 & post & -> & <- & Px).
     destruct (is_relation_node _ Px) as (ocs & ->).
     assert (Hh : ws_prefix_len ocs = 0).
     { apply (Hready (length epre) (length pre) (Node RELATION ocs) eq_refl).
       cbn [get_path children]. rewrite nth_error_app_len. cbn [children]. now rewrite nth_error_app_len. }
-    destruct (parse_rel_runs lead r ts tid ri _ a b c d Hw HT) as (txt & R1 & HG & Ne).
-    set (ts1 := ts ++ [mk_slot true 0 (atree_of (entry_afield lead r []))]) in *.
+    destruct (parse_rel_runs x r ts tid ri _ a b c d Hw HT) as (txt & R1 & HG & Ne).
+    set (ts1 := ts ++ [mk_slot true 0 (atree_of (ptext_field x r []))]) in *.
     pose proof (get_entry_runs_gen _ i (length epre) ts1 tid ri a b c
-                  (Some (mk_hnd (length ts) ([length (elems lead)] ++ [0]))) (nth_error_app_l _ _ _ _ HT) P1) as R2.
-    assert (Hrel : exists ncs, arel_tree r true = Node RELATION ncs /\ ws_prefix_len ncs = 0) by (eexists; split; reflexivity).
+                  (Some (mk_hnd (length ts) ([entry_at (p_lead x) (p_pre x)] ++ [0]))) (nth_error_app_l _ _ _ _ HT) P1) as R2.
+    assert (Hrel : exists ncs, arel_tree r (p_last x) = Node RELATION ncs /\ ws_prefix_len ncs = 0) by (eexists; split; reflexivity).
     destruct Hrel as (ncs & Encs & Wh). rewrite Encs in *.
-    destruct (ereplace_runs_sub k epre epost pre ocs post ncs j ts1 tid ri b c (length ts) 0 _ [length (elems lead)] 0
+    destruct (ereplace_runs_sub k epre epost pre ocs post ncs j ts1 tid ri b c (length ts) 0 _ [entry_at (p_lead x) (p_pre x)] 0
                 (nth_error_app_l _ _ _ _ HT) (nth_error_app_at _ _) HG ltac:(congruence) P3 Hh Wh) as (ts3 & a3 & b3 & c3 & xx & R3 & T3).
     eexists. split.
     + eapply run_ops_cons; [exact R1|]. eapply run_ops_cons; [exact R2|]. eapply run_ops_cons; [exact R3|reflexivity].
